@@ -223,6 +223,20 @@ Fixpoint run_steps (fx : bool) (st : astate) (ss : list astep) : list string :=
   | s :: rest => let '(st', lg) := step fx st s in observe st' lg :: run_steps fx st' rest
   end.
 
+(* use_is_loading_global(): the scan of the global list of counters; the counters of disposed scopes are not listed (any more) *)
+Definition global_loading (st : astate) : bool :=
+  existsb (fun s => s_is_sus s && counter_alive st (s_id s) && Nat.ltb 0 (counter st (s_id s))) (scopes st).
+
+Fixpoint glob_steps (fx : bool) (st : astate) (ss : list astep) : list bool :=
+  match ss with
+  | [] => []
+  | s :: rest => let st' := fst (step fx st s) in global_loading st' :: glob_steps fx st' rest
+  end.
+Definition run_glob (fx : bool) (p : list anode) (ss : list astep) : string :=
+  let st := fst (init p) in join " " (map show_bool (global_loading st :: glob_steps fx st ss)).
+Definition run_glob_all (fx : bool) (l : list (list anode * list astep)) : string :=
+  lines (map (fun '(p, ss) => run_glob fx p ss) l).
+
 Definition run (fx : bool) (p : list anode) (ss : list astep) : string :=
   let '(st, lg) := init p in lines (observe st lg :: run_steps fx st ss).
 Definition run_all (fx : bool) (l : list (list anode * list astep)) : string :=
